@@ -710,7 +710,7 @@ def run(ctx):
     cover.start([FILE, 'atomman/tools/axes_check.py'])
     install_monitors(rec, EC)
 
-    for i in ctx.cases('tensors', ctx.pick(960, 10000)):
+    for i in ctx.cases('tensors', ctx.pick(1920, 10000)):
         run_tensor_case(ctx, EC, i)
     for i in ctx.cases('isotropic', ctx.pick(900, 4500)):
         run_iso_case(ctx, EC, i)
